@@ -70,23 +70,387 @@ Proof.
       set (N' := Z.of_N n * 10 ^ (t - e - Z.of_N k0)).
       assert (EB : Z.of_N n * T = N' * P * E) by (rewrite ET; unfold N'; ring).
       rewrite EB. split; intro H.
-      * assert (H1 : Z.of_N c <= N' * P) by nia.
-        assert (Z.of_N c' <= N') by (destruct Hcc as [->|[-> Hr0]]; nia).
-        nia.
-      * assert (H1 : N' * P <= Z.of_N c) by nia.
-        assert (N' <= q) by nia.
-        assert (N' <= Z.of_N c') by (destruct Hcc as [->|[-> _]]; lia).
-        nia.
+      * assert (H1 : Z.of_N c <= N' * P) by (apply (Z.mul_le_mono_pos_r _ _ E HE); lia).
+        assert (H2 : Z.of_N c' <= N').
+        { destruct Hcc as [->|[-> Hr0]].
+          - apply (Z.mul_le_mono_pos_r _ _ P HPpos). lia.
+          - assert (q < N'); [|lia]. apply (Z.mul_lt_mono_pos_r P); lia. }
+        apply Z.mul_le_mono_nonneg_r; [lia|]. apply Z.mul_le_mono_nonneg_r; lia.
+      * assert (H1 : N' * P <= Z.of_N c) by (apply (Z.mul_le_mono_pos_r _ _ E HE); lia).
+        assert (H2 : N' < q + 1) by (apply (Z.mul_lt_mono_pos_r P); lia).
+        assert (H3 : N' <= Z.of_N c') by (destruct Hcc as [->|[-> _]]; lia).
+        apply Z.mul_le_mono_nonneg_r; [lia|]. apply Z.mul_le_mono_nonneg_r; lia.
     + (* the barrier is below 10^(D-1) * E <= c * E *)
+      set (A := 10 ^ (Z.of_N p - 1)) in *.
       assert (ET : 10 * T <= P * E).
       { assert (X1 : P * E = 10 ^ (e + Z.of_N k0 - t - 1) * (10 * T)).
-        { unfold T, E. rewrite HP. replace 10 with (10 ^ 1) at 3 by reflexivity.
+        { unfold T, E. rewrite HP. rewrite <- (Z.pow_succ_r 10 (t - g)) by lia.
           rewrite <- !Z.pow_add_r by lia. f_equal. lia. }
-        assert (0 < 10 ^ (e + Z.of_N k0 - t - 1)) by (apply ConvertInt.p10_pos; lia). nia. }
-      assert (HB : Z.of_N n * T < 10 ^ (Z.of_N p - 1) * P * E) by nia.
+        assert (W : 1 <= 10 ^ (e + Z.of_N k0 - t - 1)).
+        { assert (0 < 10 ^ (e + Z.of_N k0 - t - 1)) by (apply ConvertInt.p10_pos; lia). lia. }
+        rewrite X1. replace (10 * T) with (1 * (10 * T)) at 1 by ring.
+        apply Z.mul_le_mono_nonneg_r; lia. }
+      assert (HB1 : Z.of_N n * T < 10 * A * T) by (apply Z.mul_lt_mono_pos_r; lia).
+      assert (HB2 : A * (10 * T) <= A * (P * E)) by (apply Z.mul_le_mono_nonneg_l; lia).
+      assert (HX : A * P * E <= Z.of_N c * E) by (apply Z.mul_le_mono_nonneg_r; lia).
       split; intro H.
-      * exfalso. nia.
-      * assert (10 ^ (Z.of_N p - 1) <= q).
-        { apply Z.lt_succ_r. apply Z.lt_le_trans with (m := q + 1); [|lia]. nia. }
-        assert (q <= Z.of_N c') by (destruct Hcc as [->|[-> _]]; lia). nia.
+      * exfalso. lia.
+      * assert (H2 : A < q + 1) by (apply (Z.mul_lt_mono_pos_r P); lia).
+        assert (H3 : A <= Z.of_N c') by (destruct Hcc as [->|[-> _]]; lia).
+        assert (HY : A * P * E <= Z.of_N c' * P * E).
+        { apply Z.mul_le_mono_nonneg_r; [lia|]. apply Z.mul_le_mono_nonneg_r; lia. }
+        lia.
 Qed.
+
+(* ------------------------------------------------------------------ *)
+(* the same in Q: a six-digit number is a barrier for _fix              *)
+(* ------------------------------------------------------------------ *)
+Local Open Scope Q_scope.
+
+Definition dabs (d : dec) : dec := mkDec false (dcoef d) (dexp d).
+
+Lemma dfix_dabs : forall cx d,
+  dcoef (dfix cx (dabs d)) = dcoef (dfix cx d) /\ dexp (dfix cx (dabs d)) = dexp (dfix cx d) /\
+  dneg (dfix cx (dabs d)) = false /\ dneg (dfix cx d) = dneg d.
+Proof.
+  intros cx d. unfold dfix, dabs. cbn [dcoef dexp dneg].
+  destruct (ndigits (dcoef d) <=? cprec cx)%N; [repeat split|].
+  destruct (ndigits (round_drop (crnd cx) (dcoef d) (ndigits (dcoef d) - cprec cx)) <=? cprec cx)%N; repeat split.
+Qed.
+
+Lemma dval_sign : forall d, dval d == inject_Z (sgz (dneg d)) * dval (dabs d).
+Proof.
+  intro d. unfold dval, dabs, scoef. cbn [dexp dneg dcoef]. destruct (dneg d); unfold sgz.
+  - rewrite inject_Z_opp. simpl (inject_Z (-1)). ring.
+  - simpl (inject_Z 1). ring.
+Qed.
+
+Lemma dval_abs_nonneg : forall d, 0 <= dval (dabs d).
+Proof.
+  intro d. unfold dval, dabs, scoef. cbn [dexp dneg dcoef].
+  apply Qmult_le_0_compat; [|apply Qlt_le_weak, ConvertQ.p10_pos].
+  rewrite <- (Zle_Qle 0). lia.
+Qed.
+
+Lemma dfix_sign : forall cx d, dval (dfix cx d) == inject_Z (sgz (dneg d)) * dval (dfix cx (dabs d)).
+Proof.
+  intros cx d. destruct (dfix_dabs cx d) as [Hc [He [Hn Hs]]].
+  unfold dval, scoef. rewrite Hc, He, Hn, Hs. destruct (dneg d); unfold sgz.
+  - rewrite inject_Z_opp. simpl (inject_Z (-1)). ring.
+  - simpl (inject_Z 1). ring.
+Qed.
+
+(* nonnegative number, nonnegative six-digit barrier *)
+Lemma fix6_barrier_pos : forall d n t, dneg d = false -> (0 <= n < 10 ^ 6)%Z ->
+  let B := inject_Z n * p10 t in
+  (dval d <= B -> dval (dfix ctx6 d) <= B) /\ (B <= dval d -> B <= dval (dfix ctx6 d)).
+Proof.
+  intros d n t Hd Hn B.
+  destruct (fix_core ctx6 d (Z.to_N n) t ctx6_prec ltac:(unfold ctx6; cbn [cprec]; lia)) as [k [He [Hs H]]].
+  set (g := Z.min (dexp d) t).
+  specialize (H g ltac:(unfold g; lia) ltac:(unfold g; lia)). cbv zeta in H.
+  rewrite Z2N.id in H by lia.
+  set (D := dfix ctx6 d) in *.
+  assert (Ax : at_exp (dval d) (Z.of_N (dcoef d) * 10 ^ (dexp d - g)) g).
+  { assert (A := dval_sval d g ltac:(unfold g; lia)). unfold sval in A. rewrite scoef_sgz, Hd in A.
+    unfold sgz in A. rewrite Z.mul_1_l in A. exact A. }
+  assert (Ay : at_exp (dval D) (Z.of_N (dcoef D) * 10 ^ (dexp d + Z.of_N k - g)) g).
+  { assert (A := dval_sval D g ltac:(unfold g; lia)). unfold sval in A. rewrite scoef_sgz, Hs, Hd, He in A.
+    unfold sgz in A. rewrite Z.mul_1_l in A. exact A. }
+  assert (Ab : at_exp B (n * 10 ^ (t - g)) g).
+  { apply at_exp_lower; [unfold at_exp, B; reflexivity|unfold g; lia]. }
+  destruct H as [HU HL]. split; intro HH.
+  - apply (proj2 (at_exp_le _ _ _ _ _ Ay Ab)). apply HU. apply (proj1 (at_exp_le _ _ _ _ _ Ax Ab)). exact HH.
+  - apply (proj2 (at_exp_le _ _ _ _ _ Ab Ay)). apply HL. apply (proj1 (at_exp_le _ _ _ _ _ Ab Ax)). exact HH.
+Qed.
+
+Lemma rep6_nonneg_form : forall B, rep6 B -> 0 <= B -> exists n t, (0 <= n < 10 ^ 6)%Z /\ B == inject_Z n * p10 t.
+Proof.
+  intros B [n [t [Hn H]]] HB. exists (Z.abs n), t. split; [lia|].
+  assert (A := at_exp_abs _ _ _ H). unfold at_exp in A. rewrite <- A. symmetry. apply Qabs_pos. exact HB.
+Qed.
+
+Lemma rep6_opp : forall B, rep6 B -> rep6 (- B).
+Proof.
+  intros B [n [t [Hn H]]]. exists (- n)%Z, t. split; [lia|]. unfold at_exp in *. rewrite H, inject_Z_opp. ring.
+Qed.
+
+Lemma rep6_zero : rep6 0.
+Proof. exists 0%Z, 0%Z. split; [reflexivity|]. unfold at_exp. ring. Qed.
+
+(* general signs *)
+Lemma fix6_barrier_up : forall d B, rep6 B -> dval d <= B -> dval (dfix ctx6 d) <= B.
+Proof.
+  intros d B HB H.
+  assert (Hy := dval_abs_nonneg d).
+  assert (Hfy : 0 <= dval (dfix ctx6 (dabs d))).
+  { destruct (fix6_barrier_pos (dabs d) 0 0 eq_refl ltac:(lia)) as [_ L].
+    assert (E0 : inject_Z 0 * p10 0 == 0) by ring. rewrite E0 in L. apply L. exact Hy. }
+  rewrite dfix_sign. rewrite dval_sign in H.
+  destruct (dneg d); unfold sgz in *; [change (inject_Z (-1)) with (- (1)) in * | change (inject_Z 1) with 1 in *].
+  - (* d = -y *)
+    destruct (Qlt_le_dec B 0) as [Bn|Bp].
+    + assert (R := rep6_opp B HB).
+      destruct (rep6_nonneg_form (- B) R ltac:(lra)) as [n [t [Hn E]]].
+      destruct (fix6_barrier_pos (dabs d) n t eq_refl Hn) as [_ L]. rewrite <- E in L.
+      assert (- B <= dval (dfix ctx6 (dabs d))) by (apply L; lra). lra.
+    + lra.
+  - assert (Bp : 0 <= B) by lra.
+    destruct (rep6_nonneg_form B HB Bp) as [n [t [Hn E]]].
+    destruct (fix6_barrier_pos (dabs d) n t eq_refl Hn) as [U _]. rewrite <- E in U.
+    assert (dval (dfix ctx6 (dabs d)) <= B) by (apply U; lra). lra.
+Qed.
+
+Lemma fix6_barrier_lo : forall d B, rep6 B -> B <= dval d -> B <= dval (dfix ctx6 d).
+Proof.
+  intros d B HB H.
+  assert (Hy := dval_abs_nonneg d).
+  assert (Hfy : 0 <= dval (dfix ctx6 (dabs d))).
+  { destruct (fix6_barrier_pos (dabs d) 0 0 eq_refl ltac:(lia)) as [_ L].
+    assert (E0 : inject_Z 0 * p10 0 == 0) by ring. rewrite E0 in L. apply L. exact Hy. }
+  rewrite dfix_sign. rewrite dval_sign in H.
+  destruct (dneg d); unfold sgz in *; [change (inject_Z (-1)) with (- (1)) in * | change (inject_Z 1) with 1 in *].
+  - assert (Bn : B <= 0) by lra.
+    assert (R := rep6_opp B HB).
+    destruct (rep6_nonneg_form (- B) R ltac:(lra)) as [n [t [Hn E]]].
+    destruct (fix6_barrier_pos (dabs d) n t eq_refl Hn) as [U _]. rewrite <- E in U.
+    assert (dval (dfix ctx6 (dabs d)) <= - B) by (apply U; lra). lra.
+  - destruct (Qlt_le_dec B 0) as [Bn|Bp]; [lra|].
+    destruct (rep6_nonneg_form B HB Bp) as [n [t [Hn E]]].
+    destruct (fix6_barrier_pos (dabs d) n t eq_refl Hn) as [_ L]. rewrite <- E in L.
+    assert (B <= dval (dfix ctx6 (dabs d))) by (apply L; lra). lra.
+Qed.
+
+(* ------------------------------------------------------------------ *)
+(* barriers for the operations                                          *)
+(* ------------------------------------------------------------------ *)
+
+Lemma dadd6_barrier : forall a b B, rep6 B ->
+  (dval a + dval b <= B -> dval (dadd ctx6 a b) <= B) /\ (B <= dval a + dval b -> B <= dval (dadd ctx6 a b)).
+Proof.
+  intros a b B HB. unfold dadd.
+  match goal with |- context [dfix ctx6 ?D] => assert (E : dval D == dval a + dval b) end.
+  { apply dval_add_exact. intro NZ. apply Z.eqb_neq in NZ. rewrite NZ. reflexivity. }
+  split; intro H.
+  - apply fix6_barrier_up; [exact HB|]. rewrite E. exact H.
+  - apply fix6_barrier_lo; [exact HB|]. rewrite E. exact H.
+Qed.
+
+Lemma dsub6_barrier : forall a b B, rep6 B ->
+  (dval a - dval b <= B -> dval (dsub ctx6 a b) <= B) /\ (B <= dval a - dval b -> B <= dval (dsub ctx6 a b)).
+Proof.
+  intros a b B HB. unfold dsub. destruct (dadd6_barrier a (dneg_of b) B HB) as [U L].
+  rewrite dval_neg in U, L. split; intro H; [apply U|apply L]; lra.
+Qed.
+
+Lemma dmul6_barrier : forall a b B, rep6 B ->
+  (dval a * dval b <= B -> dval (dmul ctx6 a b) <= B) /\ (B <= dval a * dval b -> B <= dval (dmul ctx6 a b)).
+Proof.
+  intros a b B HB. unfold dmul.
+  set (D0 := mkDec (xorb (dneg a) (dneg b)) (dcoef a * dcoef b) (dexp a + dexp b)).
+  assert (E : dval D0 == dval a * dval b).
+  { unfold dval, D0. cbn [dexp]. rewrite ConvertQ.p10_add.
+    assert (E1 : scoef (mkDec (xorb (dneg a) (dneg b)) (dcoef a * dcoef b) (dexp a + dexp b)) = (scoef a * scoef b)%Z).
+    { unfold scoef. simpl. destruct (dneg a), (dneg b); simpl; lia. }
+    rewrite E1, inject_Z_mult. ring. }
+  split; intro H.
+  - apply fix6_barrier_up; [exact HB|]. rewrite E. exact H.
+  - apply fix6_barrier_lo; [exact HB|]. rewrite E. exact H.
+Qed.
+
+Lemma near_nonneg : forall x y, 0 <= x -> near x y -> 0 <= y.
+Proof.
+  intros x y Hx H. unfold near, eps6 in H. rewrite (Qabs_pos x Hx) in H.
+  apply Qabs_Qle_condition in H. destruct H as [H _].
+  assert ((1 # 200000) * x <= x).
+  { setoid_replace x with (1 * x) at 2 by ring. apply Qmult_le_compat_r; [discriminate|exact Hx]. }
+  lra.
+Qed.
+
+(* division of a nonnegative by a positive number: a six-digit number above the
+   true quotient stays above the computed one *)
+Lemma ddiv6_barrier_up : forall a b B, 0 <= dval a -> dneg b = false -> dcoef b <> 0%N ->
+  rep6 B -> dval a / dval b <= B ->
+  exists q, ddiv ctx6 a b = Some q /\ dval q <= B /\ 0 <= dval q.
+Proof.
+  intros a b B Ha0 Hsb Hb HB H.
+  destruct (ddiv6_rnd a b Hb) as [qd [Hq [Hnear _]]].
+  assert (Hbpos : 0 < dval b).
+  { unfold dval. rewrite scoef_sgz, Hsb. unfold sgz. rewrite Z.mul_1_l.
+    apply Qmult_lt_0_compat; [|apply ConvertQ.p10_pos]. rewrite <- (Zlt_Qlt 0). lia. }
+  assert (Hquot0 : 0 <= dval a / dval b).
+  { apply Qle_shift_div_l; [exact Hbpos|]. lra. }
+  exists qd. split; [exact Hq|]. split; [|exact (near_nonneg _ _ Hquot0 Hnear)].
+  destruct (N.eq_dec (dcoef a) 0) as [Ha|Ha].
+  - (* zero dividend: the result is a zero *)
+    unfold ddiv in Hq. destruct (dcoef b =? 0)%N eqn:Eb; [lia|]. rewrite Ha in Hq. simpl (0 =? 0)%N in Hq. cbv iota in Hq.
+    injection Hq as <-.
+    assert (E : dval (mkDec (xorb (dneg a) (dneg b)) 0 (dexp a - dexp b)) == 0).
+    { unfold dval. rewrite scoef_sgz. cbn [dcoef dneg dexp]. simpl Z.of_N. rewrite Z.mul_0_r. ring. }
+    apply fix6_barrier_up; [exact HB|]. rewrite E. lra.
+  - assert (Hsa : dneg a = false).
+    { destruct (dneg a) eqn:Es; [exfalso|reflexivity].
+      assert (dval a < 0); [|lra].
+      unfold dval. rewrite scoef_sgz, Es. unfold sgz.
+      assert (0 < inject_Z (Z.of_N (dcoef a)) * p10 (dexp a)).
+      { apply Qmult_lt_0_compat; [|apply ConvertQ.p10_pos]. rewrite <- (Zlt_Qlt 0). lia. }
+      rewrite inject_Z_mult. change (inject_Z (-1)) with (- (1)). lra. }
+    rewrite (ddiv_unfold ctx6 a b Ha Hb) in Hq. injection Hq as <-.
+    assert (QS := quot_scaled a b Ha Hb). rewrite Hsa, Hsb in QS. change (xorb false false) with false in QS. unfold sgz in QS. rewrite Z.mul_1_l in QS.
+    destruct (div_operands ctx6 a b Ha Hb) as [Hden Hnum].
+    change (10 ^ Z.of_N (cprec ctx6))%Z with 1000000%Z in Hnum.
+    rewrite Hsa, Hsb. change (xorb false false) with false.
+    set (num := dnum ctx6 a b) in *. set (den := dden ctx6 a b) in *.
+    set (e := (dexp a - dexp b - dshift ctx6 a b)%Z) in *.
+    assert (Hdm := N.div_mod num den ltac:(lia)). assert (Hmod := N.mod_lt num den ltac:(lia)).
+    destruct (num mod den =? 0)%N eqn:Er.
+    + (* exact: the unrounded decimal is the quotient *)
+      apply fix6_barrier_up; [exact HB|].
+      destruct (strip0_spec (S (N.to_nat (N.log2 (num / den)))) (num / den)%N e (dexp a - dexp b)) as [S1 S2].
+      set (st := strip0 (S (N.to_nat (N.log2 (num / den)))) (num / den)%N e (dexp a - dexp b)) in *.
+      assert (HD := dval_sval (mkDec false (fst st) (snd st)) e ltac:(cbn [dexp]; lia)).
+      unfold sval in HD. cbn [dexp] in HD. rewrite scoef_sgz in HD. cbn [dneg dcoef] in HD. unfold sgz in HD.
+      rewrite Z.mul_1_l, S2 in HD.
+      assert (Hdq0 : ~ inject_Z (Z.of_N den) == 0) by (apply injZ_neq0; lia).
+      assert (EQ : dval (mkDec false (fst st) (snd st)) == dval a / dval b).
+      { apply (Qmult_inj_r _ _ _ Hdq0). apply (at_exp_scale _ _ _ (Z.of_N den)) in HD.
+        apply (proj2 (at_exp_eq _ _ _ _ _ HD QS)).
+        assert ((num mod den = 0)%N) by lia. rewrite H0 in Hdm. lia. }
+      change (dval (mkDec false (fst st) (snd st)) <= B). rewrite EQ. exact H.
+    + (* inexact: floor (+1) of the true coefficient is still below the barrier *)
+      apply fix6_barrier_up; [exact HB|].
+      set (q := (num / den)%N) in *. set (q' := if (q mod 5 =? 0)%N then N.succ q else q).
+      assert (Hq' : (q' <= N.succ q)%N) by (unfold q'; destruct (q mod 5 =? 0)%N; lia).
+      assert (Hr : (0 < num mod den)%N) by lia.
+      assert (Bpos : 0 <= B) by lra.
+      destruct (rep6_nonneg_form B HB Bpos) as [n [t [Hn EB]]].
+      assert (Ab : at_exp B n t) by exact EB.
+      assert (Hdq : 0 < inject_Z (Z.of_N den)) by (rewrite <- (Zlt_Qlt 0); exact Hden).
+      assert (HqB : dval a / dval b * inject_Z (Z.of_N den) <= B * inject_Z (Z.of_N den)).
+      { apply Qmult_le_compat_r; [exact H|apply Qlt_le_weak; exact Hdq]. }
+      assert (Ab' := at_exp_scale _ _ _ (Z.of_N den) Ab).
+      assert (Hte : (e < t)%Z).
+      { destruct (Z_lt_le_dec e t) as [?|G]; [assumption|exfalso].
+        assert (QS' := at_exp_lower _ _ _ t QS G).
+        apply (proj1 (at_exp_le _ _ _ _ _ QS' Ab')) in HqB.
+        assert (P := ConvertInt.p10_pos (e - t) ltac:(lia)). nia. }
+      assert (Ab2 := at_exp_lower _ _ _ e Ab' ltac:(lia)).
+      apply (proj1 (at_exp_le _ _ _ _ _ QS Ab2)) in HqB.
+      set (beta := (n * 10 ^ (t - e))%Z) in *.
+      assert (Hb1 : (Z.of_N num <= beta * Z.of_N den)%Z) by (unfold beta; lia).
+      assert (Hb2 : (Z.of_N q < beta)%Z).
+      { apply (Z.mul_lt_mono_pos_r (Z.of_N den)); [lia|]. lia. }
+      assert (AD := dval_at (mkDec false q' e)). rewrite scoef_sgz in AD. cbn [dneg dcoef dexp] in AD. unfold sgz in AD.
+      rewrite Z.mul_1_l in AD.
+      assert (Ab3 := at_exp_lower _ _ _ e Ab ltac:(lia)). fold beta in Ab3.
+      apply (proj2 (at_exp_le _ _ _ _ _ AD Ab3)). lia.
+Qed.
+
+(* rounding a number between 0 and an integer K to the nearest integer stays there *)
+Lemma rhaQ_bounds : forall x K, 0 <= x -> x <= inject_Z K -> (0 <= rhaQ x <= K)%Z.
+Proof.
+  intros [n d] K H0 HK. unfold rhaQ. cbn [Qnum Qden].
+  unfold Qle in H0, HK. cbn [Qnum Qden inject_Z] in H0, HK. rewrite Z.mul_1_r in H0, HK. simpl in H0.
+  unfold rhaz. rewrite (Z.sgn_pos (Z.pos d)), (Z.abs_eq (Z.pos d)), (Z.abs_eq n) by lia. rewrite Z.mul_1_r.
+  set (R := ((2 * n + Z.pos d) / (2 * Z.pos d))%Z).
+  assert (HR0 : (0 <= R)%Z) by (apply Z.div_pos; lia).
+  assert (HRK : (R < K + 1)%Z) by (apply Z.div_lt_upper_bound; lia).
+  destruct (Z.sgn_spec n) as [[? E]|[[? E]|[? E]]]; rewrite E; lia.
+Qed.
+
+(* ------------------------------------------------------------------ *)
+(* the result of the six-digit path stays in [min, max]                 *)
+(* ------------------------------------------------------------------ *)
+
+Lemma snap_dec_in_range : forall c m s W K,
+  dcoef s <> 0%N -> dneg s = false ->
+  dval m <= dval c -> dval c - dval m <= W ->
+  rep6 (dval m) -> rep6 (dval m + W) -> rep6 W ->
+  (0 <= K < 10 ^ 6)%Z -> W == inject_Z K * dval s ->
+  exists res, snap_dec c m s = Ok res /\ dval m <= dval res <= dval m + W.
+Proof.
+  intros c m s W K Hs Hsn Hlo Hhi RO RM RW HK HW.
+  assert (Hspos : 0 < dval s).
+  { unfold dval. rewrite scoef_sgz, Hsn. unfold sgz. rewrite Z.mul_1_l.
+    apply Qmult_lt_0_compat; [|apply ConvertQ.p10_pos]. rewrite <- (Zlt_Qlt 0). lia. }
+  assert (RK : rep6 (inject_Z K)).
+  { exists K, 0%Z. split; [lia|]. unfold at_exp, p10. rewrite Qpower_0_r. ring. }
+  unfold snap_dec.
+  (* d = val - offset *)
+  destruct (dsub6_barrier c m W RW) as [U1 _]. destruct (dsub6_barrier c m 0 rep6_zero) as [_ L1].
+  set (d := dsub ctx6 c m) in *.
+  assert (Hd : 0 <= dval d <= W) by (split; [apply L1; lra|apply U1; exact Hhi]).
+  (* q = d / step *)
+  assert (Hquot : dval d / dval s <= inject_Z K).
+  { apply Qle_shift_div_r; [exact Hspos|]. rewrite <- HW. apply Hd. }
+  destruct (ddiv6_barrier_up d s (inject_Z K) (proj1 Hd) Hsn Hs RK Hquot) as [q [Hq [HqK Hq0]]].
+  rewrite Hq.
+  (* r = round(q) *)
+  destruct (rhaQ_bounds (dval q) K Hq0 HqK) as [Hr0 HrK].
+  set (ti := to_integral HalfUp q). assert (Eti : dval ti == inject_Z (rhaQ (dval q))) by apply to_integral_Q.
+  (* m' = r * step *)
+  assert (Hprod : 0 <= dval ti * dval s <= W).
+  { rewrite Eti. split.
+    - apply Qmult_le_0_compat; [rewrite <- (Zle_Qle 0); exact Hr0|lra].
+    - rewrite HW. apply Qmult_le_compat_r; [rewrite <- Zle_Qle; exact HrK|lra]. }
+  destruct (dmul6_barrier ti s W RW) as [U3 _]. destruct (dmul6_barrier ti s 0 rep6_zero) as [_ L3].
+  set (pm := dmul ctx6 ti s) in *.
+  assert (Hpm : 0 <= dval pm <= W) by (split; [apply L3|apply U3]; apply Hprod).
+  (* res = offset + m' *)
+  destruct (dadd6_barrier m pm (dval m) RO) as [_ L4]. destruct (dadd6_barrier m pm (dval m + W) RM) as [U4 _].
+  eexists. split; [reflexivity|]. split; [apply L4|apply U4]; lra.
+Qed.
+
+Lemma float_in_range_lemma : forall m M s str v K,
+  dcoef s <> 0%N -> dneg s = false -> dval m <= dval M ->
+  rep6 (dval m) -> rep6 (dval M) -> rep6 (dval M - dval m) ->
+  (0 <= K < 10 ^ 6)%Z -> dval M - dval m == inject_Z K * dval s ->
+  exists res, check_convert FFloat (Some m) (Some M) (Some s) str (RFin v) = Ok (VDec res) /\
+              dval m <= dval res <= dval M.
+Proof.
+  intros m M s str v K Hs Hsn Hle RO RM RW HK HW.
+  rewrite float_step_unfold by assumption.
+  set (c := clamp (Some m) (Some M) v).
+  assert (Hc : dval m <= dval c <= dval M).
+  { unfold c. rewrite clamp_Q. unfold clampQ. simpl.
+    split.
+    - apply Q.min_glb; [exact Hle|apply Q.le_max_l].
+    - apply Q.le_min_l. }
+  destruct (snap_dec_in_range c m s (dval M - dval m) K Hs Hsn (proj1 Hc) ltac:(lra) RO
+              ltac:(apply (rep6_compat (dval M)); [ring|exact RM]) RW HK HW) as [res [H0 H1]].
+  exists res. rewrite H0. split; [reflexivity|]. lra.
+Qed.
+
+(* integer formats taking the decimal path with integer bounds: the int handed over is in range too *)
+Lemma int_dec_path_in_range_lemma : forall f m M s str v K zm zM,
+  is_integer_fmt f = true -> dcoef s <> 0%N -> dneg s = false -> dval m <= dval M ->
+  is_integral HalfUp (clamp (Some m) (Some M) v) && is_integral HalfUp m && is_integral HalfUp s = false ->
+  dval m == inject_Z zm -> dval M == inject_Z zM ->
+  rep6 (dval m) -> rep6 (dval M) -> rep6 (dval M - dval m) ->
+  (0 <= K < 10 ^ 6)%Z -> dval M - dval m == inject_Z K * dval s ->
+  exists z, check_convert f (Some m) (Some M) (Some s) str (RFin v) = Ok (VInt z) /\ (zm <= z <= zM)%Z.
+Proof.
+  intros f m M s str v K zm zM Hf Hs Hsn Hle Hni Em EM RO RM RW HK HW.
+  assert (Hcc : check_convert f (Some m) (Some M) (Some s) str (RFin v) = convert_number f (Some m) (Some M) (Some s) (RFin v))
+    by (destruct f; try discriminate; reflexivity).
+  rewrite Hcc. unfold convert_number. destruct (dcoef s =? 0)%N eqn:E; [lia|].
+  unfold snap. rewrite Hf.
+  replace (true && is_integral HalfUp (clamp (Some m) (Some M) v) && is_integral HalfUp m && is_integral HalfUp s) with false
+    by (simpl; symmetry; exact Hni).
+  set (c := clamp (Some m) (Some M) v) in *.
+  assert (Hc : dval m <= dval c <= dval M).
+  { unfold c. rewrite clamp_Q. unfold clampQ. simpl. split; [apply Q.min_glb; [exact Hle|apply Q.le_max_l]|apply Q.le_min_l]. }
+  destruct (snap_dec_in_range c m s (dval M - dval m) K Hs Hsn (proj1 Hc) ltac:(lra) RO
+              ltac:(apply (rep6_compat (dval M)); [ring|exact RM]) RW HK HW) as [res [H0 H1]].
+  rewrite H0. simpl. eexists. split; [reflexivity|].
+  assert (Hh := to_integral_even_half res).
+  set (z := dec_to_Z (to_integral HalfEven res)) in *.
+  apply Qabs_Qle_condition in Hh. destruct Hh as [Hh1 Hh2].
+  assert (B1 : inject_Z zm - (1 # 2) <= inject_Z z) by (rewrite <- Em; lra).
+  assert (B2 : inject_Z z <= inject_Z zM + (1 # 2)) by (rewrite <- EM; lra).
+  unfold Qle, Qminus, Qplus, Qopp, inject_Z in B1, B2. cbn [Qnum Qden] in B1, B2. lia.
+Qed.
+
+Lemma barrier_lemma : forall d B, rep6 B ->
+  (dval d <= B -> dval (dfix ctx6 d) <= B) /\ (B <= dval d -> B <= dval (dfix ctx6 d)).
+Proof. intros d B HB. split; [apply fix6_barrier_up|apply fix6_barrier_lo]; exact HB. Qed.
